@@ -5,6 +5,7 @@ import (
 	"encoding/hex"
 	"fmt"
 	"math/big"
+	"os"
 	"sort"
 
 	"github.com/nspcc-dev/neo-go/pkg/core/native/nativehashes"
@@ -325,6 +326,11 @@ func (r *run) conservation(n *Node, h uint32) *sim.Violation {
 		}
 	}
 	n.prevBal, n.prevBalHeight = lb, h
+	if h > 0 && h == bc.BlockHeight() {
+		if v := r.transferLogOfBlock(n, h); v != nil {
+			return v
+		}
+	}
 	return nil
 }
 
@@ -437,4 +443,155 @@ func (r *run) transferDeltas(n *Node, h uint32) (map[util.Uint160]*big.Int, map[
 		}
 	}
 	return dNeo, dGas, nil
+}
+
+// transferLogOfBlock: the node-local token transfer log (what getnep17transfers serves) holds, for every account, exactly
+// the NEO and GAS Transfer events of the block's successful executions - OnPersist, the transactions in order,
+// PostPersist - as that account's entries of the block: amount negative for the sender, counterparty the other side,
+// the container's hash. Under the verif build tag a log batch holds 3 entries (128 in production), so batches roll
+// over inside blocks all the time.
+func (r *run) transferLogOfBlock(n *Node, h uint32) *sim.Violation {
+	bc := n.BC
+	neoID := nativeID(n, nativehashes.NeoToken)
+	gasID := nativeID(n, nativehashes.GasToken)
+	bh := bc.GetHeaderHash(h)
+	blk, err := bc.GetBlock(bh)
+	if err != nil {
+		sim.Harnessf("GetBlock: %v", err)
+	}
+	type entry struct {
+		asset int32
+		amt   string
+		other util.Uint160
+		tx    util.Uint256
+	}
+	want := map[util.Uint160][]entry{}
+	party := func(it stackitem.Item) (util.Uint160, bool) {
+		if _, isNull := it.(stackitem.Null); isNull {
+			return util.Uint160{}, false
+		}
+		b, err := it.TryBytes()
+		if err != nil {
+			return util.Uint160{}, false
+		}
+		u, err := util.Uint160DecodeBytesBE(b)
+		return u, err == nil
+	}
+	collect := func(c util.Uint256, trig trigger.Type) {
+		aers, err := bc.GetAppExecResults(c, trig)
+		if err != nil {
+			sim.Harnessf("GetAppExecResults: %v", err)
+		}
+		for _, a := range aers {
+			if a.VMState != vmstate.Halt {
+				continue
+			}
+			for _, e := range a.Events {
+				if e.Name != "Transfer" {
+					continue
+				}
+				var id int32
+				switch e.ScriptHash {
+				case nativehashes.NeoToken:
+					id = neoID
+				case nativehashes.GasToken:
+					id = gasID
+				default:
+					continue
+				}
+				arr, ok := e.Item.Value().([]stackitem.Item)
+				if !ok || len(arr) != 3 {
+					continue
+				}
+				amt, err := arr[2].TryInteger()
+				if err != nil {
+					continue
+				}
+				from, okF := party(arr[0])
+				to, okT := party(arr[1])
+				if okF {
+					want[from] = append(want[from], entry{id, new(big.Int).Neg(amt).String(), to, c})
+				}
+				if okT {
+					want[to] = append(want[to], entry{id, amt.String(), from, c})
+				}
+			}
+		}
+	}
+	collect(bh, trigger.OnPersist)
+	for _, tx := range blk.Transactions {
+		collect(tx.Hash(), trigger.Application)
+	}
+	collect(bh, trigger.PostPersist)
+	// every account the harness knows plus every party of this block
+	accts := map[util.Uint160]bool{}
+	for _, a := range r.w.accounts {
+		accts[a] = true
+	}
+	for a := range want {
+		accts[a] = true
+	}
+	var as []util.Uint160
+	for a := range accts {
+		as = append(as, a)
+	}
+	sort.Slice(as, func(i, j int) bool { return as[i].Less(as[j]) })
+	for _, a := range as {
+		var got []entry
+		var ferr error
+		if v := sim.Recover(func() {
+			ferr = bc.ForEachNEP17Transfer(a, ^uint64(0)>>1, func(t *state.NEP17Transfer) (bool, error) {
+				if t.Block < h {
+					return false, nil
+				}
+				if t.Block == h && (t.Asset == neoID || t.Asset == gasID) {
+					got = append(got, entry{t.Asset, t.Amount.String(), t.Counterparty, t.Tx})
+				}
+				return true, nil
+			})
+		}); v != nil {
+			v.Msg = fmt.Sprintf("%s h=%d: reading the token transfer log of %s panicked: %s", n.Name, h, a.StringLE(), v.Msg)
+			return v
+		}
+		if ferr != nil {
+			return sim.Violatef("transfer-log", "transfer-log/unreadable", "%s h=%d: the token transfer log of %s cannot be read: %v", n.Name, h, a.StringLE(), ferr)
+		}
+		// the log is read newest first
+		for i, j := 0, len(got)-1; i < j; i, j = i+1, j-1 {
+			got[i], got[j] = got[j], got[i]
+		}
+		w := want[a]
+		same := len(got) == len(w)
+		for i := 0; same && i < len(w); i++ {
+			same = got[i] == w[i]
+		}
+		if !same {
+			var all []string
+			_ = bc.ForEachNEP17Transfer(a, ^uint64(0)>>1, func(t *state.NEP17Transfer) (bool, error) {
+				all = append(all, fmt.Sprintf("b%d/a%d/%s", t.Block, t.Asset, t.Amount))
+				return len(all) < 24, nil
+			})
+			if os.Getenv("VERIF_TLOG_DEBUG") != "" {
+				lu, lerr := bc.GetTokenLastUpdated(a)
+				var all2, all3 []string
+				_ = bc.ForEachNEP17Transfer(a, ^uint64(0), func(t *state.NEP17Transfer) (bool, error) {
+					all2 = append(all2, fmt.Sprintf("b%d/a%d/%s", t.Block, t.Asset, t.Amount))
+					return len(all2) < 24, nil
+				})
+				_ = bc.ForEachNEP17Transfer(a, blk.Timestamp+1, func(t *state.NEP17Transfer) (bool, error) {
+					all3 = append(all3, fmt.Sprintf("b%d/a%d/%s", t.Block, t.Asset, t.Amount))
+					return len(all3) < 24, nil
+				})
+				fmt.Printf("TLOG-DEBUG %s h=%d acc=%s local=%+v lastUpdated=%v %v maxts=%v ts+1(%d)=%v\n", n.Name, h, a.StringLE(), n.Local, lu, lerr, all2, blk.Timestamp, all3)
+			}
+			return sim.Violatef("transfer-log", "transfer-log/entries", "%s h=%d: the token transfer log of %s has for this block %v; the block's successful executions emitted for it %v (the log, newest first: %v)", n.Name, h, a.StringLE(), got, w, all)
+		}
+		if len(w) > 0 {
+			r.out.Probes["transfer_log_blocks_compared"]++
+		}
+		if len(w) >= 3 {
+			r.out.Probes["transfer_log_batch_rolled_inside_block"]++
+		}
+	}
+	return nil
 }
